@@ -42,6 +42,9 @@ def harness(tier, seed):
     from moptipyapps.binpacking2d.objectives.bin_count_and_lowest_skyline import BinCountAndLowestSkyline
     from moptipyapps.binpacking2d.objectives.bin_count_and_small import BinCountAndSmall
     from moptipyapps.binpacking2d.packing import Packing
+    from moptipyapps.binpacking2d.packing_result import from_packing_and_end_result
+    from moptipy.evaluation.end_results import EndResult
+    n_records = 0
     classes = [BinCount, BinCountAndLastEmpty, BinCountAndEmpty, BinCountAndLastSmall, BinCountAndSmall,
                BinCountAndLastSkyline, BinCountAndLowestSkyline]
     rng = random.Random(seed + 2)
@@ -134,6 +137,30 @@ def harness(tier, seed):
                 elif int(o.to_bin_count(got)) != k:
                     viol.append((f"{name}/to_bin_count", info, f"to_bin_count({got})={o.to_bin_count(got)} bins={k}"))
                 per_obj[name].append((k, got))
+            # the result record built from this packing (default arguments) carries the same seven values and the
+            # objectives' own declared bounds - for this instance, whatever was evaluated before (all generated instances
+            # share one name)
+            if n_records < 400:
+                n_records += 1
+                info = {"W": W, "H": H, "items": [[int(v) for v in inst[i]] for i in range(inst.n_different_items)], "rows": rows}
+                try:
+                    er = EndResult("alg", inst.name, "binCount", "enc", 1, exp["binCount"][0], 1, 1, 10, 10, None, None, None)
+                    prr = from_packing_and_end_result(er, y)
+                    evals += 1
+                    bad = [nm for nm, (want, _k) in exp.items() if prr.objectives.get(nm) != want]
+                    if bad:
+                        viol.append(("packing_result/objective-values", info,
+                                     f"{bad[0]}: recorded {prr.objectives.get(bad[0])}, documented value {exp[bad[0]][0]}"))
+                    for o in objs:
+                        lo_, hi_ = prr.objective_bounds.get(f"{o}.lowerBound"), prr.objective_bounds.get(f"{o}.upperBound")
+                        if lo_ != o.lower_bound() or hi_ != o.upper_bound():
+                            viol.append(("packing_result/objective-bounds", info,
+                                         f"{o}: recorded [{lo_}, {hi_}], declared [{o.lower_bound()}, {o.upper_bound()}]"))
+                            break
+                    if (prr.n_items, prr.bin_width, prr.bin_height) != (n, W, H):
+                        viol.append(("packing_result/instance-data", info, f"recorded {(prr.n_items, prr.bin_width, prr.bin_height)}"))
+                except Exception as ex:     # noqa: BLE001
+                    viol.append(("packing_result/raises", info, repr(ex)))
             if len(samples) < 2:
                 samples.append({"W": W, "H": H, "rows": rows, "values": {k_: v[0] for k_, v in exp.items()}})
         for name, lst in per_obj.items():
@@ -173,6 +200,7 @@ def harness(tier, seed):
     return {"name": "objectives_oracle", "evaluations": evals, "distinct_nontrivial": len(distinct),
             "rule": "random small instances (bin area <= 4000), per instance 16 feasible packings (both decoders, random non-bottom-left placements, "
                     "one-item-per-bin sparse layouts with shuffled rows, row-permuted copies) x 7 objectives; value vs "
-                    "independent recomputation, declared bounds, to_bin_count, pairwise strict dominance; distinct = "
+                    "independent recomputation, declared bounds, to_bin_count, pairwise strict dominance; PackingResult records built from "
+                    "up to 400 of these packings carry the same values and bounds; distinct = "
                     "distinct (objective, packing) pairs",
             "samples": samples, "violations": viol, "exhaustive": False}
